@@ -492,10 +492,23 @@ func (p Profile) nextTree(r *rand.Rand, c Cont, del bool) Edit {
 			at := b.Start
 			return Edit{Op: "tree.edit", Path: c.Path, I: at, J: at, T: []TN{newBlock()}}
 		}
-		if len(b.Attrs) > 0 && r.Intn(3) == 0 {
-			return Edit{Op: "tree.rmstyle", Path: c.Path, I: b.Start, J: b.Start + b.Size, Keys: []string{b.Attrs[r.Intn(len(b.Attrs))]}}
+		// one call in three covers this block AND its right neighbours (whole elements only:
+		// still structure-preserving): one operation then styles / un-styles several nodes
+		end := b.Start + b.Size
+		if r.Intn(3) == 0 {
+			for _, nb := range blocks {
+				if nb.Start == end {
+					end = nb.Start + nb.Size
+					if r.Intn(2) == 0 {
+						break
+					}
+				}
+			}
 		}
-		return Edit{Op: "tree.style", Path: c.Path, I: b.Start, J: b.Start + b.Size, A: randAttrs(r)}
+		if len(b.Attrs) > 0 && r.Intn(3) == 0 {
+			return Edit{Op: "tree.rmstyle", Path: c.Path, I: b.Start, J: end, Keys: []string{b.Attrs[r.Intn(len(b.Attrs))]}}
+		}
+		return Edit{Op: "tree.style", Path: c.Path, I: b.Start, J: end, A: randAttrs(r)}
 	}
 }
 
